@@ -12,7 +12,7 @@ def targets_of(st):
     if isinstance(st, ast.Assign):
         for x in st.targets: t(x)
     elif isinstance(st, (ast.AugAssign, ast.AnnAssign)): t(st.target)
-    elif isinstance(st, (ast.For,)): t(st.target)
+    elif isinstance(st, (ast.For, ast.AsyncFor)): t(st.target)
     elif isinstance(st, ast.With):
         for i in st.items:
             if i.optional_vars is not None: t(i.optional_vars)
@@ -36,6 +36,8 @@ class Reaching:
             if n.kind == "loop" and isinstance(getattr(a, "_parent", None), ast.For): pass
             if n.kind in ("stmt", "def", "with", "handler"):
                 for v in targets_of(a): s.defs_at[n.id].append(v)
+            elif n.kind == "loop" and isinstance(getattr(a, "_parent", None), (ast.For, ast.AsyncFor)) and getattr(a, "_parent").iter is a:
+                for v in targets_of(getattr(a, "_parent")): s.defs_at[n.id].append(v)      # the loop header binds the target on every iteration
         # For-loop targets: the loop header node's ast is the iter expr; find the For via parent pointer
         s.IN = {n.id: set() for n in cfg.nodes}; s.OUT = {n.id: set() for n in cfg.nodes}
         preds = collections.defaultdict(list)
